@@ -425,4 +425,40 @@ theorem gatesUnitary_of_table {R : Type} [CommSemiring R] [StarRing R] (U : Stri
       simp only [hid, appGate] at hM ⊢
       exact hU a (List.mem_of_getElem? hid) M hM
 
+/-! ### A decision procedure for equality of meaning trees (`Sem` derives no `DecidableEq`) -/
+
+mutual
+  def semEq : Sem → Sem → Bool
+    | .gate n a, .gate n' a' => n == n' && a == a'
+    | .blk p s i b, .blk p' s' i' b' => p == p' && s == s' && i == i' && semEqList b b'
+    | .loop n b, .loop n' b' => n == n' && semEq b b'
+    | _, _ => false
+  def semEqList : List Sem → List Sem → Bool
+    | [], [] => true
+    | x :: r, y :: r' => semEq x y && semEqList r r'
+    | _, _ => false
+end
+
+mutual
+  theorem semEq_sound : ∀ (x y : Sem), semEq x y = true → x = y
+    | .gate n a, .gate n' a', h => by
+      simp only [semEq, Bool.and_eq_true, beq_iff_eq] at h
+      rw [h.1, h.2]
+    | .blk p s i b, .blk p' s' i' b', h => by
+      simp only [semEq, Bool.and_eq_true, beq_iff_eq] at h
+      obtain ⟨⟨⟨rfl, rfl⟩, rfl⟩, hb⟩ := h
+      rw [semEqList_sound b b' hb]
+    | .loop n b, .loop n' b', h => by
+      simp only [semEq, Bool.and_eq_true, beq_iff_eq] at h
+      rw [h.1, semEq_sound b b' h.2]
+    | .gate _ _, .blk _ _ _ _, h | .gate _ _, .loop _ _, h | .blk _ _ _ _, .gate _ _, h
+    | .blk _ _ _ _, .loop _ _, h | .loop _ _, .gate _ _, h | .loop _ _, .blk _ _ _ _, h => by simp [semEq] at h
+  theorem semEqList_sound : ∀ (l l' : List Sem), semEqList l l' = true → l = l'
+    | [], [], _ => rfl
+    | x :: r, y :: r', h => by
+      simp only [semEqList, Bool.and_eq_true] at h
+      rw [semEq_sound x y h.1, semEqList_sound r r' h.2]
+    | [], _ :: _, h | _ :: _, [], h => by simp [semEqList] at h
+end
+
 end Jaqal.RunModel
